@@ -259,6 +259,49 @@ mod proofs {
 """
 
 
+def flag_tables():
+    """(emitted, defined): long flags written by the as_args side of options!, long flags the clap struct defines."""
+    om = rd('options/mod.rs'); cli = rd('options/cli.rs')
+    m = re.search(r'^options! \{', om, flags=re.M)
+    if not m:
+        raise SliceError('options! invocation not found')
+    body = om[m.start():match_brace(om, m.end() - 1)]
+    emitted = sorted(set(re.findall(r'"(--[A-Za-z0-9_-]+)"', body)))
+    m = re.search(r'^struct BindgenCommand \{', cli, flags=re.M)
+    if not m:
+        raise SliceError('struct BindgenCommand not found')
+    sb = cli[m.start():match_brace(cli, m.end() - 1)]
+    defined = set()
+    i = 0
+    while True:
+        am = re.search(r'#\[arg\(', sb[i:])
+        if not am:
+            break
+        a = i + am.end() - 1
+        e = match_brace(sb, a)
+        attrs = sb[a + 1:e - 1]
+        fm = re.match(r'\s*\]\s*(?:#\[[^\n]*\]\s*)*(\w+)\s*:', sb[e:])
+        i = e
+        if not fm:
+            continue
+        field = fm.group(1)
+        if re.search(r'\blong\b', attrs):
+            lm = re.search(r'\blong\s*=\s*"([^"]+)"', attrs)
+            defined.add('--' + (lm.group(1) if lm else field.replace('_', '-')))
+        for al in re.findall(r'(?:visible_)?alias\s*=\s*"([^"]+)"', attrs):
+            defined.add('--' + al)
+    if len(emitted) < 50 or len(defined) < 50:
+        raise SliceError('flag tables implausibly small (%d emitted, %d defined)' % (len(emitted), len(defined)))
+    return emitted, sorted(defined), body, sb
+
+
+def fnv(s):
+    h = 0xcbf29ce484222325
+    for b in s.encode():
+        h = ((h ^ b) * 0x100000001b3) & 0xffffffffffffffff
+    return h
+
+
 def kernels(tier, seed):
     def gen():
         om = rd('options/mod.rs'); cli = rd('options/cli.rs'); lib = rd('lib.rs')
@@ -379,4 +422,28 @@ def kernels(tier, seed):
         k.assumptions = ['as_args prints format!("{item}={abi}") (options/mod.rs abi_overrides); the harness builds that text byte by byte from Abi::to_string()']
         k.bounds = ['regex of 1-3 bytes over [a-z . * = |]; all 10 ABIs (concrete per iteration)']
         return k
-    return [kernel_or_error('override_abi', oabi), kernel_or_error('generate_flag', gen), kernel_or_error('header_order', hdr), kernel_or_error('field_attr', fattr)]
+    def names():
+        emitted, defined, body, sb = flag_tables()
+        asserts = '\n        '.join('assert!(defined(0x%016x), "Builder::command_line_flags can write %s, which the command line does not define");' % (fnv(f), f) for f in emitted)
+        text = '''#![allow(warnings)]
+// long flags defined by `struct BindgenCommand` (clap derive: field name or explicit long = "..", aliases), as FNV-1a hashes of their text
+pub const DEFINED: [u64; %d] = [%s];
+pub fn defined(h: u64) -> bool { let mut i = 0; let mut r = false; while i < DEFINED.len() { if DEFINED[i] == h { r = true; } i += 1; } r }
+#[cfg(kani)]
+mod proofs {
+    use super::*;
+    #[kani::proof] #[kani::unwind(%d)]
+    fn every_flag_the_builder_writes_is_a_flag_the_command_line_defines() {
+        %s
+    }
+}
+''' % (len(defined), ', '.join('0x%016x' % fnv(f) for f in defined), len(defined) + 2, asserts)
+        k = Kernel(name='flag_names')
+        k.files = {'src/lib.rs': text}
+        k.harnesses = [H('every_flag_the_builder_writes_is_a_flag_the_command_line_defines', desc='every "--flag" literal on the as_args side of options! (%d flags) is a long option or alias of the clap struct (%d): a finite table, decided by constant propagation, one assertion per flag' % (len(emitted), len(defined)), sample={'emitted': len(emitted), 'defined': len(defined)})]
+        k.encoded = [{'file': 'bindgen/options/mod.rs', 'item': 'options! invocation: every "--flag" string literal', 'sha256': sha(body), 'lines': None}, {'file': 'bindgen/options/cli.rs', 'item': 'struct BindgenCommand: #[arg(long ..)] fields and aliases', 'sha256': sha(sb), 'lines': None}]
+        k.stubs = ['the two tables are extracted textually by the generator and compared by hash (FNV-1a 64); clap\'s derive rule (field name with _ -> -) is applied by the generator']
+        k.assumptions = ['no two distinct flag names collide under FNV-1a 64']
+        k.bounds = ['finite: %d emitted x %d defined' % (len(emitted), len(defined))]
+        return k
+    return [kernel_or_error('flag_names', names), kernel_or_error('override_abi', oabi), kernel_or_error('generate_flag', gen), kernel_or_error('header_order', hdr), kernel_or_error('field_attr', fattr)]
